@@ -702,6 +702,20 @@ func streamLease(t *testing.T, st *Stats) {
 		{Name: "lease-grpc-extend", Grpc: true, Actions: []c11Action{{K: "fc", Msgs: 3, Byts: 10000}, {K: "publish", Pads: []int{0, 0}}, {K: "extend", Pick: []int{0}}, {K: "extend", Pick: []int{0, 1}}, {K: "publish", Pads: []int{0}}, {K: "extend", Pick: []int{2}}, {K: "ack", Pick: []int{0}}}},
 		{Name: "lease-streamer-extend", Actions: []c11Action{{K: "fc", Msgs: 3, Byts: 10000}, {K: "publish", Pads: []int{0, 0}}, {K: "extend", Pick: []int{1}}, {K: "extend", Pick: []int{0, 1}}, {K: "ack", Pick: []int{0}}}},
 	}
+	// a message sent on a gRPC stream and never acknowledged is sent again after its lease lapsed
+	{
+		cs := c11Case{Name: "lease-grpc-redelivery", Grpc: true, Actions: []c11Action{{K: "fc", Msgs: 3, Byts: 10000}, {K: "publish", Pads: []int{0}}, {K: "advance", D: 40 * Sec}}}
+		r := c11Run(t, Seed(), cs, map[string]bool{"stall-head-of-line": true})
+		st.Count("stream_lease_cases", 1)
+		if r.violation == "" && r.sentTotal < 2 {
+			p := ReplayPath(fmt.Sprintf("C04-stream-%s-%d.json", cs.Name, Seed()))
+			what := fmt.Sprintf("a message sent on a StreamingPull stream and not acknowledged was not sent again within 40 s (default retry policy: its lease ends after about 11 s); sends seen: %d", r.sentTotal)
+			b, _ := json.MarshalIndent(c11Replay{Property: "C04", Sig: "stream-not-redelivered", Seed: Seed(), Case: cs, What: what}, "", " ")
+			os.WriteFile(p, b, 0o644)
+			st.Violate(Violation{What: "[stream-not-redelivered] " + what, Replay: p, FoundInput: true, Sig: "stream-not-redelivered"})
+			return
+		}
+	}
 	for _, cs := range cases {
 		r := c11Run(t, Seed(), cs, map[string]bool{"stall-head-of-line": true})
 		st.Count("stream_lease_cases", 1)
